@@ -97,6 +97,7 @@ def execute(case):
                 return orig(jds, *a, **k)
             loader.handshaking_lemma = wrapper
         orc = Oracle()
+        orc.cell = case.get("cell", 0.5)
         W = sum(case["wts"])
         with watchdog(30):
             if case["rng"][0] == "seed":
@@ -174,6 +175,20 @@ def dist_trace(base):
             key = tuple(tuple(r) for r in t["raw"])
             tally[key] = tally.get(key, Fraction(0)) + w
             total += w
+            if n % 7 == 1 and t["case"]["rng"][0] == "plan":
+                # the grid is exact only if every uniform draw is used through comparisons with multiples of 1/W: replay this leaf
+                # with the draws moved to both ends of their cells
+                for cell in (0.002, 0.998):
+                    try:
+                        t2 = execute(dict(t["case"], cell=cell))
+                        same = t2["raw"] == t["raw"] and t2["out"] == t["out"]
+                    except OracleMismatch:
+                        same = False
+                    if not same:
+                        tr["decided"], tr["why"] = False, "results depend on the uniform draws beyond comparisons with multiples of 1/W (grid not exact)"
+                        break
+                if not tr["decided"]:
+                    break
     except OracleMismatch as ex:
         tr["decided"], tr["why"] = False, "oracle: %s" % ex
     tr["leaves"] = n
